@@ -227,7 +227,7 @@ def gen_packet(g):
         frag = None if g['frag'] is None else bytes.fromhex(g['frag'])
         from .c10_lp import _extra
         wire = net.lp_wrap(frag, nack_reason=g['reason'], nack=g['nack'], pit_token=None if g['token'] is None else bytes.fromhex(g['token']),
-                           extra=_extra(g['extra']))
+                           extra=_extra(g['extra']), frag_index=g.get('fragidx'), frag_count=g.get('fragcnt'))
     elif kind == 'cert':
         body = S.name_wire(g['name'])
         body += T.enc_tlv(0x14, T.enc_tlv(0x18, b'\x02') + T.enc_tlv(0x19, T.enc_nni(g['fresh'])))
@@ -263,6 +263,8 @@ def _grammar(draw):
         return {'kind': 'lp', 'frag': None if inner is None else inner.hex(), 'nack': nack,
                 'reason': draw(st.one_of(st.none(), st.sampled_from([0, 50, 255, 256, 2 ** 32, 2 ** 64 - 1]))) if nack else None,
                 'token': draw(st.one_of(st.none(), st.binary(max_size=12).map(bytes.hex))), 'extra': draw(_envspec()),
+                # fragmentation headers (any value, 0 included): the decoders refuse fragmented packets
+                'fragidx': draw(st.sampled_from([None] * 8 + [0, 0, 1, 2])), 'fragcnt': draw(st.sampled_from([None] * 8 + [0, 1, 2, 3])),
                 'sprinkle': sprinkle}
     if kind == 'cert':
         txt = st.text(alphabet='0123456789T', min_size=0, max_size=15)
@@ -283,7 +285,9 @@ def _input_case():
     gram = st.fixed_dictionaries({'fam': st.just('grammar'), 'g': _grammar()})
     mutated = st.fixed_dictionaries({'fam': st.just('mutated'), 'g': _grammar(),
                                      'muts': st.lists(M.mutation_spec(), min_size=1, max_size=2)})
-    return st.one_of(rnd, rnd_framed, gram, gram, mutated, mutated, mutated, mutated)
+    wide = st.fixed_dictionaries({'fam': st.just('mutated'), 'g': _grammar(),
+                                  'muts': st.lists(M.mutation_spec(['num-wide']), min_size=1, max_size=1)})
+    return st.one_of(rnd, rnd_framed, gram, gram, mutated, mutated, mutated, mutated, wide)
 
 
 OUTER = {'data': 6, 'interest': 5, 'lp': 0x64, 'cert': 6, 'name': 7, 'lp-legacy': 0x64, 'lp-nack': 0x64,
